@@ -132,10 +132,11 @@ theorem C07_lookup_partial (tr : Trace) (endT : Int) (h7 : K7 Cfg.paper tr endT 
     ∃ e ∈ dlvs tr, e.h = b.host ∧ e.t ≤ t ∧ posFull s e.items = true :=
   added_complete h7 h6 h5 ha
 
-/-- **One loss kills at most one**: two deliveries that K7 owes and that did not happen are the same delivery -/
+/-- **One lost datagram kills at most one opportunity**: two deliveries that K7 owes and that did not happen are deliveries of the
+same datagram (same send, hence same send time) — whether it was lost for one receiver or for all of them -/
 theorem C07_single_loss (tr : Trace) (endT : Int) (h7 : K7 Cfg.paper tr endT = true) (o1 o2 : Obl)
-    (h1 : o1 ∈ missing Cfg.paper tr endT) (h2 : o2 ∈ missing Cfg.paper tr endT) : o1 = o2 :=
-  k7b_unique h7 h1 h2
+    (h1 : o1 ∈ missing Cfg.paper tr endT) (h2 : o2 ∈ missing Cfg.paper tr endT) : o1.d = o2.d ∧ o1.t = o2.t :=
+  k7b_same h7 h1 h2
 
 /-- the same statements hold with the parameters computed from the source (what the driver evaluates) -/
 theorem C07_convergence_gen (tr : Trace) (endT : Int)
